@@ -274,3 +274,52 @@ def r9_char_count_plus_bytes(ctx):
                         r.ok()
     r.counts["char_counts_added"] = n
     return r
+
+
+def r9e_name_search_uses_identifier(ctx):
+    r = Result("R9e", "the finder that looks a NAME up in the text of a source line to get its columns (by role: returns (usize, "
+                      "usize), takes the text, a line number and the name, and searches with str::find) is handed the identifier "
+                      "the AST carries at that place: no function of this crate lies in the backward slice of the name argument. "
+                      "A name computed elsewhere (the `name=` keyword of the decorator) does not occur after `def`: the search "
+                      "fails or hits another occurrence and the definition's columns point at the wrong text")
+    from .r3 import _slice_calls
+    crate = ctx.bin
+    finders = set()
+    for f in crate.real_fns():
+        if f.kind not in ("fn", "method") or f.ret.replace(" ", "") != "(usize,usize)":
+            continue
+        tys = [f.local_ty(i) for i in range(1, f.argc + 1)]
+        if sum(1 for t in tys if t.lstrip("&").startswith("str") or t == "&str") < 2 or "usize" not in tys:
+            continue
+        finders.add(f.id)
+    # keep those that (transitively, among finders) search text
+    searching = {fid for fid in finders if any(re.search(r"str>?::(find|match_indices|rfind)$", c.get("res") or "")
+                                               for g in crate.real_fns() if g.root == fid for _b, c in g.calls())}
+    grew = True
+    while grew:
+        grew = False
+        for fid in finders - searching:
+            if any(c.get("res") in searching for _b, c in crate.fns[fid].calls()):
+                searching.add(fid)
+                grew = True
+    n = 0
+    for f in crate.real_fns():
+        for bb, c in f.calls():
+            if c.get("res") not in searching or f.id in searching:
+                continue
+            tf = crate.fns[c["res"]]
+            # the name is the last &str parameter
+            idx = [i for i in range(1, tf.argc + 1) if tf.local_ty(i) == "&str"]
+            if not idx or idx[-1] - 1 >= len(c["args"]):
+                continue
+            n += 1
+            calls = _slice_calls(crate, f, c["args"][idx[-1] - 1])
+            local = sorted(x.split("::")[-1] for x in calls if x in crate.fns and x not in searching)
+            key = "R9e|%s|searched name is computed" % f.root
+            if local:
+                r.violate(key, "%s looks up a name at %s that comes out of %s, not out of the AST node at that place" % (
+                    f.root, crate.span_str(c["span"]), local))
+            else:
+                r.ok(sample={"finder": tf.id.split("::")[-1], "called from": f.id.split("::")[-1]})
+    r.counts["name_lookups_in_line_text"] = n  # no floor: the finder is recognised by its signature; a finder that returns a struct is not one
+    return r
